@@ -13,6 +13,14 @@ func (e StdEng) StackDense(t DenseTensor, axis int, others ...DenseTensor) (retV
 		return
 	}
 
+	// like numpy.stack: all operands have to have the same shape
+	for _, ot := range others {
+		if !eqIntsExact(t.Shape(), ot.Shape()) {
+			err = errors.Errorf(shapeMismatch, t.Shape(), ot.Shape())
+			return
+		}
+	}
+
 	newShape := Shape(BorrowInts(opdims + 1))
 	newShape[axis] = len(others) + 1
 	shape := t.Shape()
@@ -426,4 +434,18 @@ func (e StdEng) doViewStackArbitrary(t, retVal DenseTensor, axisStride, batches 
 		mt.SetMask(mask)
 	}
 	return nil
+}
+
+// eqIntsExact reports whether two shapes are identical (unlike Shape.Eq, which treats
+// (n), (n,1) and (1,n) as equal).
+func eqIntsExact(a, b Shape) bool {
+	if len(a) != len(b) {
+		return false
+	}
+	for i := range a {
+		if a[i] != b[i] {
+			return false
+		}
+	}
+	return true
 }
